@@ -58,7 +58,7 @@ def dirs_worker(arg):
     if st["ph"] != 1:
         return None
     c, rejected = st["case"], st["out"]
-    all_dirs = [("w", "a"), ("w", "b"), ("w", "a", "n"), ("w", "Ab"), ("w", "aB"), ("v", "a"), ("w", "B")]
+    all_dirs = [("w", "a"), ("w", "b"), ("w", "a", "n"), ("w", "Ab"), ("w", "aB"), ("v", "a"), ("w", "B"), ("w", "a-x", "c")]
     fs = {_dname(d) + "/T.1.0.dsdl": "@sealed\n" for d in all_dirs}
     for d in all_dirs:      # a reference inside every namespace: a directory listed twice under two spellings would be ambiguous
         fs[_dname(d) + "/U.1.0.dsdl"] = "T.1.0 t\n@sealed\n"
@@ -79,6 +79,8 @@ def dirs_worker(arg):
         try:
             root = spell(c["root"])
             lookups = [spell(a) for a in c["lookups"]]
+            if core.pick(block, "iterable", 3) == 2:
+                lookups = (x for x in list(lookups))          # a one-shot iterable is an Iterable too
             try:
                 res = pydsdl.read_namespace(root, lookups, allow_root_namespace_name_collision=bool(c["allow"]))
                 got = ("ok", [(t.full_name, os.path.relpath(str(t.source_file_path), str(tr.root.resolve()))) for t in res])
